@@ -411,6 +411,40 @@ class DeepStructArr(Component):
     s.whole //= s.stage[2].p.inner
 
 
+class MemberArrIfc(Interface):
+  """an interface whose members have array dimensions of their own (port arrays)"""
+  def construct(s):
+    s.d = [InPort(4) for _ in range(3)]
+    s.e = [[InPort(2) for _ in range(2)] for _ in range(3)]
+    s.q = OutPort(4)
+
+
+class MemberArrChild(Component):
+  def construct(s):
+    s.ifc = [MemberArrIfc() for _ in range(2)]          # 2 interfaces x 3-element members: the two sizes differ
+    s.out = OutPort(4)
+    @update
+    def up_mac():
+      s.out @= s.ifc[1].d[2] ^ s.ifc[0].d[1] ^ zext(s.ifc[1].e[2][0], 4) ^ zext(s.ifc[0].e[1][1], 4)
+      for i in range(2):
+        s.ifc[i].q @= s.ifc[i].d[2 - i] + s.ifc[1 - i].d[0] + zext(s.ifc[i].e[2][1], 4)
+
+
+class SubIfcMemberArr(Component):
+  """a sub-component with an ARRAY of interfaces whose members are arrays too (sizes 2, 3 and 3x2).  (A struct member
+  with a packed array would put the design into the listed Yosys two-driver class, so the members are port arrays.)"""
+  def construct(s):
+    s.d = [[InPort(4) for _ in range(3)] for _ in range(2)]; s.e = [[[InPort(2) for _ in range(2)] for _ in range(3)] for _ in range(2)]
+    s.out = OutPort(4); s.q = [OutPort(4) for _ in range(2)]
+    s.sub = MemberArrChild()
+    for i in range(2):
+      s.q[i] //= s.sub.ifc[i].q
+      for j in range(3):
+        s.sub.ifc[i].d[j] //= s.d[i][j]
+        for k in range(2): s.sub.ifc[i].e[j][k] //= s.e[i][j][k]
+    s.out //= s.sub.out
+
+
 def _arr2d_const():
   return Arr2D(0x9, [[b8(0x11), b8(0x12), b8(0x13)], [b8(0x21), b8(0x22), b8(0x23)]], 0x2)
 
@@ -435,7 +469,7 @@ class ConstStruct2D(Component):
 
 
 DESIGNS = {
-  'x:ConstStruct2D': ConstStruct2D,
+  'x:ConstStruct2D': ConstStruct2D, 'x:SubIfcMemberArr': SubIfcMemberArr,
   'x:DeepStructArr': DeepStructArr,
   'x:SubIfcArr': SubIfcArr,
   'x:StructInstBehav': StructInstBehav, 'x:IfcNested': IfcNested, 'x:SubcompBehav': SubcompBehav, 'x:ElifChain': ElifChain,
